@@ -5,6 +5,7 @@ package main
 import (
 	"fmt"
 	"os"
+	"time"
 
 	"github.com/ProtonMail/gluon/verifshim/sched"
 )
@@ -30,8 +31,12 @@ type Stats struct {
 
 // Explore enumerates all schedules with at most `bound` preemptions (bound < 0: unbounded), depth first.
 // run must execute the scenario under a fresh scheduler built from the prefix.
+// ScenarioSeconds caps the time spent on one scenario (reported as capped, like the schedule cap).
+var ScenarioSeconds = 600
+
 func Explore(bound int, maxSchedules int, run func(prefix []int) *Exec, onExec func(*Exec, []int)) Stats {
 	st := Stats{Outcomes: map[string]int{}}
+	started := time.Now()
 	stack := [][]int{{}}
 	for len(stack) > 0 {
 		prefix := stack[len(stack)-1]
@@ -49,6 +54,10 @@ func Explore(bound int, maxSchedules int, run func(prefix []int) *Exec, onExec f
 		st.Outcomes[x.Outcome]++
 		onExec(x, x.S.Choices)
 		if maxSchedules > 0 && st.Schedules >= maxSchedules {
+			st.Capped = true
+			break
+		}
+		if ScenarioSeconds > 0 && st.Schedules%256 == 0 && time.Since(started) > time.Duration(ScenarioSeconds)*time.Second {
 			st.Capped = true
 			break
 		}
